@@ -45,31 +45,68 @@ Lemma item_same_id_refl x : item_same_id x x = true. Proof. apply same_id_refl. 
 Lemma item_same_id_trans x y z : item_same_id x y = true -> item_same_id y z = true -> item_same_id x z = true.
 Proof. apply same_id_trans. Qed.
 
-Lemma in_hash_run hf run h f : In (h, f) (hash_run hf run) ->
-  exists old rep tl len x, run = (old, rep) :: tl /\ hf rep old = Some (h, len) /\ In x run /\ f = set_len (snd x) len.
+(* what a run turns into: the maximal failing prefix is dropped, the first member that hashes represents the rest *)
+Lemma hash_from_spec hf old run :
+  ((forall x, In x run -> hf (snd x) old = None) /\ hash_from hf old run = []) \/
+  (exists pre rep suf h len, run = pre ++ rep :: suf /\ (forall x, In x pre -> hf (snd x) old = None) /\
+      hf (snd rep) old = Some (h, len) /\
+      hash_from hf old run = map (fun y => (h, set_len (snd y) len)) (rep :: suf)).
 Proof.
-  unfold hash_run. destruct run as [|[old rep] tl]; [intros []|].
-  destruct (hf rep old) as [[h' len]|] eqn:E; [|intros []].
-  intros Hin. apply in_map_iff in Hin. destruct Hin as (x & Ex & Hx). inversion Ex; subst.
-  exists old, rep, tl, len, x. auto.
+  induction run as [|x tl IH]; cbn [hash_from].
+  - left. split; [intros x []|reflexivity].
+  - destruct (hf (snd x) old) as [[h len]|] eqn:E.
+    + right. exists [], x, tl, h, len. repeat split; auto. intros y [].
+    + destruct IH as [[Hall E0]|(pre & rep & suf & h & len & -> & Hpre & Hrep & E0)].
+      * left. split; auto. intros y [<-|Hy]; auto.
+      * right. exists (x :: pre), rep, suf, h, len. repeat split; auto. intros y [<-|Hy]; auto.
+Qed.
+
+Lemma hash_run_head hf old rep tl h len : hf rep old = Some (h, len) ->
+  hash_run hf ((old, rep) :: tl) = map (fun x => (h, set_len (snd x) len)) ((old, rep) :: tl).
+Proof. intros E. cbn [hash_run hash_from snd]. rewrite E. reflexivity. Qed.
+
+Lemma hash_run_all_fail hf old hd tl : (forall x, In x ((old, hd) :: tl) -> hf (snd x) old = None) ->
+  hash_run hf ((old, hd) :: tl) = [].
+Proof.
+  intros Hall. change (hash_run hf ((old, hd) :: tl)) with (hash_from hf old ((old, hd) :: tl)). destruct (hash_from_spec hf old ((old, hd) :: tl)) as [[_ E]|(pre & rep & suf & h & len & E & _ & Hr & _)]; auto.
+  rewrite (Hall rep) in Hr; [discriminate|]. rewrite E. apply in_or_app. right. left. auto.
+Qed.
+
+Lemma in_hash_run hf run h f : In (h, f) (hash_run hf run) ->
+  exists old hd tl rep len x, run = (old, hd) :: tl /\ In rep run /\ hf (snd rep) old = Some (h, len) /\ In x run /\
+                              f = set_len (snd x) len.
+Proof.
+  destruct run as [|[old hd] tl]; [intros []|].
+  change (hash_run hf ((old, hd) :: tl)) with (hash_from hf old ((old, hd) :: tl)).
+  destruct (hash_from_spec hf old ((old, hd) :: tl)) as [[_ E]|(pre & rep & suf & h' & len & E & _ & Hr & E0)].
+  - rewrite E. intros [].
+  - rewrite E0. intros Hin. apply in_map_iff in Hin. destruct Hin as (x & Ex & Hx). inversion Ex; subst.
+    assert (Hsub : forall y, In y (rep :: suf) -> In y ((old, hd) :: tl)).
+    { intros y Hy. rewrite E. apply in_or_app. right. exact Hy. }
+    exists old, hd, tl, rep, len, x. split; [reflexivity|]. split; [apply Hsub; left; reflexivity|].
+    split; [exact Hr|]. split; [apply Hsub; exact Hx|reflexivity].
 Qed.
 
 Lemma in_hashed n st hf items h f : wf_nd n -> In (h, f) (hashed_of n st hf items) ->
-  exists old rep x len, In (old, rep) items /\ In x items /\ fid rep = fid (snd x) /\ fdev rep = fdev (snd x) /\
-                        hf rep old = Some (h, len) /\ f = set_len (snd x) len.
+  exists old hd oldr rep x len,
+    In (old, hd) items /\ In (oldr, rep) items /\ In x items /\
+    fid hd = fid rep /\ fdev hd = fdev rep /\ fid rep = fid (snd x) /\ fdev rep = fdev (snd x) /\
+    hf rep old = Some (h, len) /\ f = set_len (snd x) len.
 Proof.
   intros [Hord _] Hin. unfold hashed_of in Hin. apply in_flat_map in Hin.
   destruct Hin as ([d its] & Hdv & Hin). cbn [fst snd] in Hin.
   apply in_flat_map in Hin. destruct Hin as (run & Hrun & Hin).
-  apply in_hash_run in Hin. destruct Hin as (old & rep & tl & len & x & -> & Hhf & Hx & ->).
+  apply in_hash_run in Hin. destruct Hin as (old & hd & tl & [oldr rep] & len & x & -> & Hrep & Hhf & Hx & ->). cbn [snd] in *.
   pose proof (runs_homogeneous item_same_id item_same_id_trans item_same_id_refl _ _ Hrun) as Hhom.
-  cbn in Hhom. specialize (Hhom x Hx). unfold item_same_id in Hhom. cbn [snd] in Hhom. apply same_id_spec in Hhom.
-  assert (Hmem : forall y, In y ((old, rep) :: tl) -> In y items /\ fdev (snd y) = d).
+  cbn in Hhom. pose proof (Hhom x Hx) as Hhx. pose proof (Hhom (oldr, rep) Hrep) as Hhr.
+  unfold item_same_id in Hhx, Hhr. cbn [snd] in Hhx, Hhr. apply same_id_spec in Hhx, Hhr.
+  assert (Hmem : forall y, In y ((old, hd) :: tl) -> In y items /\ fdev (snd y) = d).
   { intros y Hy. eapply runs_in in Hy; eauto.
     eapply Permutation_in in Hy; [|apply Hord].
     exact (group_by_member N.leb N.eqb _ N_eqb_spec' _ _ _ _ Hdv Hy). }
-  destruct (Hmem x Hx) as [Hxi Hxd]. destruct (Hmem (old, rep) (or_introl eq_refl)) as [Hri Hrd]. cbn [snd] in Hrd.
-  exists old, rep, x, len. repeat split; auto. congruence.
+  destruct (Hmem x Hx) as [Hxi Hxd]. destruct (Hmem (old, hd) (or_introl eq_refl)) as [Hhi Hhd]. destruct (Hmem (oldr, rep) Hrep) as [Hri Hrd].
+  cbn [snd] in Hhd, Hrd.
+  exists old, hd, oldr, rep, x, len. repeat split; auto; congruence.
 Qed.
 
 Lemma in_regroup l g : In g (regroup l) ->
@@ -87,10 +124,11 @@ Qed.
 (* what a group in the output of rehash (before the post filter) is made of *)
 Definition regrouped_from (pre : group -> bool) (hf : hash_fn) (gs : list group) (g : group) : Prop :=
   gfiles g <> [] /\ forall f, In f (gfiles g) ->
-      exists g0 f0 g1 rep, In g0 gs /\ pre g0 = true /\ In f0 (gfiles g0) /\
+      exists g0 f0 g1 rep gh hd, In g0 gs /\ pre g0 = true /\ In f0 (gfiles g0) /\
                            In g1 gs /\ pre g1 = true /\ In rep (gfiles g1) /\
-                           fid rep = fid f0 /\ fdev rep = fdev f0 /\
-                           hf rep (ghash g1) = Some (ghash g, glen g) /\ f = set_len f0 (glen g).
+                           In gh gs /\ pre gh = true /\ In hd (gfiles gh) /\
+                           fid rep = fid f0 /\ fdev rep = fdev f0 /\ fid hd = fid rep /\ fdev hd = fdev rep /\
+                           hf rep (ghash gh) = Some (ghash g, glen g) /\ f = set_len f0 (glen g).
 
 Lemma rehash_raw_sound n st pre hf gs g : wf_nd n -> In g (rehash_raw n st pre hf gs) ->
   (In g gs /\ pre g = false) \/ regrouped_from pre hf gs g.
@@ -101,11 +139,12 @@ Proof.
     intros f Hf. destruct (Hall f Hf) as [Hi Hlen].
     eapply Permutation_in in Hi; [|apply (proj2 Hnd)].
     apply (in_hashed _ _ _ _ _ _ Hnd) in Hi.
-    destruct Hi as (old & rep & [h0 f0] & len & Hrep & Hx & Hid & Hdev & Hhf & ->). cbn [snd] in *.
+    destruct Hi as (old & hd & oldr & rep & [h0 f0] & len & Hhd & Hrep & Hx & Hih & Hdh & Hid & Hdev & Hhf & ->). cbn [snd] in *.
     apply in_items_of in Hrep. destruct Hrep as (g1 & Hg1 & -> & Hrep1).
+    apply in_items_of in Hhd. destruct Hhd as (gh & Hgh & -> & Hhd1).
     apply in_items_of in Hx. destruct Hx as (g0 & Hg0 & -> & Hf0).
-    apply filter_In in Hg1, Hg0. cbn [set_len flen] in Hlen. subst len.
-    exists g0, f0, g1, rep. tauto.
+    apply filter_In in Hg1, Hg0, Hgh. cbn [set_len flen] in Hlen. subst len.
+    exists g0, f0, g1, rep, gh, hd. tauto.
   - left. apply filter_In in Hin. destruct Hin as [Hin Hp]. apply negb_true_iff in Hp. auto.
 Qed.
 
@@ -252,6 +291,7 @@ Section Sound.
        whose result is [newh rep old] *)
     Lemma regrouped_files (hf : hash_fn) (newh : file -> hash -> hash) pre gs g :
       (forall f old h l, hf f old = Some (h, l) -> h = newh f old /\ l = flen f) ->
+      (forall a b old, In a scanned -> In b scanned -> fid a = fid b -> fdev a = fdev b -> newh a old = newh b old) ->
       (forall g0, In g0 gs -> gbase g0) ->
       regrouped_from pre hf gs g ->
       gbase g /\ forall f, In f (gfiles g) ->
@@ -259,17 +299,20 @@ Section Sound.
                        fid rep = fid f /\ fdev rep = fdev f /\ ghash g = newh rep (ghash g1) /\
                        exists g0, In g0 gs /\ pre g0 = true /\ In f (gfiles g0).
     Proof.
-      intros Hhf Hgs [_ Hall].
+      intros Hhf Hnewh Hgs [_ Hall].
       assert (Hx : forall f, In f (gfiles g) -> In f scanned /\ flen f = glen g /\
                 exists g1 rep, In g1 gs /\ pre g1 = true /\ In rep (gfiles g1) /\ In rep scanned /\
                                fid rep = fid f /\ fdev rep = fdev f /\ ghash g = newh rep (ghash g1) /\
                                exists g0, In g0 gs /\ pre g0 = true /\ In f (gfiles g0)).
-      { intros f Hf. destruct (Hall f Hf) as (g0 & f0 & g1 & rep & Hg0 & Hp0 & Hf0 & Hg1 & Hp1 & Hrep & Hi & Hd & Hh & ->).
+      { intros f Hf.
+        destruct (Hall f Hf) as (g0 & f0 & g1 & rep & gh & hd & Hg0 & Hp0 & Hf0 & Hg1 & Hp1 & Hrep & Hgh & Hph & Hhd & Hi & Hd & Hih & Hdh & Hh & ->).
         destruct (Hhf _ _ _ _ Hh) as [Eh El].
-        destruct (Hgs g0 Hg0 f0 Hf0) as [Hs0 _]. destruct (Hgs g1 Hg1 rep Hrep) as [Hsr _].
+        destruct (Hgs g0 Hg0 f0 Hf0) as [Hs0 _]. destruct (Hgs g1 Hg1 rep Hrep) as [Hsr _]. destruct (Hgs gh Hgh hd Hhd) as [Hsh _].
         destruct (Hids rep f0 Hsr Hs0 Hi) as [_ Ell].
         rewrite El, Ell, set_len_same. repeat split; auto; try congruence.
-        exists g1, rep. repeat split; auto. exists g0. auto. }
+        exists gh, hd. repeat split; auto; try congruence.
+        - rewrite Eh. symmetry. apply Hnewh; auto.
+        - exists g0. auto. }
       split.
       - intros f Hf. destruct (Hx f Hf) as (? & ? & _). auto.
       - intros f Hf. destruct (Hx f Hf) as (_ & _ & ?). auto.
@@ -303,6 +346,7 @@ Section Sound.
           destruct (Hall f Hf) as (g1 & rep & _ & _ & _ & Hrs & Hi & Hd & -> & _).
           destruct (Hb f Hf) as [Hfs _]. apply (same_inode rep f); auto.
         + apply hf_prefix_spec.
+        + intros a b _ Ha Hb Ei Ed. apply (same_inode a b); auto.
         + intros g0 Hg0. apply in_map_iff in Hg0. destruct Hg0 as (g0' & <- & ?). apply gbase_sort; auto.
     Qed.
 
@@ -331,6 +375,7 @@ Section Sound.
             apply andb_true_iff in Hp0. destruct Hp0 as [_ Hp0]. apply N.ltb_lt in Hp0.
             destruct (Hgs' g0 Hg0) as [Hb0 _]. destruct (Hb0 f Hf0) as [_ El0]. lia.
         + apply hf_suffix_spec.
+        + intros a b old Ha Hb Ei Ed. f_equal. apply (same_inode a b); auto.
         + intros g0 Hg0. apply Hgs'; auto.
     Qed.
 
@@ -354,6 +399,7 @@ Section Sound.
           destruct (Hall f Hf) as (g1 & rep & _ & _ & _ & Hrs & Hi & Hd & -> & _).
           destruct (Hb f Hf) as [Hfs _]. apply (same_inode rep f); auto.
         + apply hf_contents_spec.
+        + intros a b _ Ha Hb Ei Ed. apply (same_inode a b); auto.
         + intros g0 Hg0. destruct (Hgs' g0 Hg0). auto.
     Qed.
 
@@ -475,7 +521,7 @@ Section Sound.
     apply (rehash_sound _ _ _ _ _ _ _ Hnd) in Hg0. destruct Hg0 as [_ [[_ Hpre']|[_ Hall]]]; [discriminate|].
     assert (Hx : forall x, In x (gfiles g0) -> exists x0 out, In x0 scanned /\ fdata x = fdata x0 /\ T (fdata x0) = Some out /\
                                                        glen g0 = N.of_nat (length out) /\ ghash g0 = H out).
-    { intros x Hx0. destruct (Hall x Hx0) as (ga & x0 & gb & rep & Hga & _ & Hx0' & Hgb & _ & Hrep & Hi & _ & Hh & ->).
+    { intros x Hx0. destruct (Hall x Hx0) as (ga & x0 & gb & rep & gh & hd & Hga & _ & Hx0' & Hgb & _ & Hrep & _ & _ & _ & Hi & _ & _ & _ & Hh & ->).
       destruct Hga as [<-|[]]. destruct Hgb as [<-|[]]. cbn [gfiles] in *.
       apply sort_by_id_in1, deduplicate_incl, filter_In in Hx0'. apply sort_by_id_in1, deduplicate_incl, filter_In in Hrep.
       destruct Hx0' as [Hx0s _]. destruct Hrep as [Hreps _].
